@@ -57,7 +57,7 @@ type BedOpts struct {
 	LogQueries       bool   // log.queries: every query (with the text form of its name) goes to the log
 	RegexpRule       string // when set: a domain set with this regexp entry decides the first rule (REFUSED when it matches)
 	VerifyClientCert bool
-	NoClientCA       bool // with VerifyClientCert: no tls.ca configured (system roots decide)
+	NoClientCA       bool   // with VerifyClientCert: no tls.ca configured (system roots decide)
 	ClientCAB        string // listener kinds "tlsB" / "httpsB": a second DoT / DoH listener whose client certificates must chain to this CA file instead
 	UdpRcvBuf        int
 	KeepRaw          bool // fake upstreams keep the wire bytes of every query
